@@ -5,6 +5,7 @@ import (
 	"encoding/json"
 	"fmt"
 	"math"
+	"sync"
 	"testing"
 	"unicode"
 	"unicode/utf8"
@@ -520,7 +521,11 @@ func checkSimHistory(c simHistCase) (fl *harness.Failure, applied int) {
 	if err != nil {
 		return nil, 0
 	}
-	_ = simMatrix(doc) // everything that is cached lazily is cached now
+	// several callers at once on a copy whose lazy values are all still unread: each gets the
+	// scores a single caller gets
+	if f := parallelScores(c.Doc.Text(), simMatrix(doc)); f != nil {
+		return f, 0
+	}
 	for _, e := range c.Edits {
 		inds, fams := doc.Individuals(), doc.Families()
 		if len(inds) == 0 {
@@ -567,9 +572,41 @@ func checkSimHistory(c simHistCase) (fl *harness.Failure, applied int) {
 	return nil, applied
 }
 
+func parallelScores(text, want string) *harness.Failure {
+	cold, err := gedcom.NewDocumentFromString(text)
+	if err != nil {
+		return nil
+	}
+	const callers = 8
+	outs := make([]string, callers)
+	start := make(chan struct{})
+	var wg sync.WaitGroup
+	for k := 0; k < callers; k++ {
+		wg.Add(1)
+		go func(k int) {
+			defer wg.Done()
+			defer func() {
+				if p := recover(); p != nil {
+					outs[k] = fmt.Sprintf("panic: %v", p)
+				}
+			}()
+			<-start
+			outs[k] = simMatrix(cold)
+		}(k)
+	}
+	close(start)
+	wg.Wait()
+	for k := range outs {
+		if outs[k] != want {
+			return harness.Failf("parallel-scores-differ", "%d callers score every pair of one freshly decoded document at the same time; caller %d gets\n%s\na single caller gets\n%s\nfile:\n%s", callers, k, outs[k], want, text)
+		}
+	}
+	return nil
+}
+
 func TestCheckSimilarityHistory(t *testing.T) {
 	s := harness.NewSub("similarity-after-history",
-		"random family graphs (<= 5 people, <= 3 families) decoded, every pair scored (surrounding, weighted and individual similarity, which fills every lazy cache), then 1..4 edits through the public API (AddFamilyWithHusbandAndWife, AddChild, SetHusband, SetWife, AddName, AddBirthDate), scoring again after each; oracle: the full matrix of scores of the live document equals, exactly, the matrix of the same text decoded from nothing; non-trivial = an edit was applied to a document of >= 3 people")
+		"random family graphs (<= 5 people, <= 3 families) decoded, every pair scored (surrounding, weighted and individual similarity, which fills every lazy cache) - by one caller, and by 8 callers at the same time on another copy with everything still unread, who must all get the single caller's scores -, then 1..4 edits through the public API (AddFamilyWithHusbandAndWife, AddChild, SetHusband, SetWife, AddName, AddBirthDate), scoring again after each; oracle: the full matrix of scores of the live document equals, exactly, the matrix of the same text decoded from nothing; non-trivial = an edit was applied to a document of >= 3 people")
 	s.Rapid(t, harness.Share(harness.Pick(6000, 300000)), 123, func(rt *rapid.T) {
 		c := simHistCase{Doc: gen.Graph(gen.GraphOpts{MaxPeople: 5, MaxFamilies: 3}).Draw(rt, "doc")}
 		for k := rapid.IntRange(1, 4).Draw(rt, "nedits"); k > 0; k-- {
